@@ -110,7 +110,9 @@ def run(ctx):
         with open(os.environ["VERIF_DUMP_FAILING"], "w") as f:
             json.dump([{"locale": k[0], "word": k[1], "key": v[0][0]["key"], "tk": v[0][0]["tk"], "n": len(v), "verdicts": sorted({x[2] for x in v}),
                         "norms": sorted({x[0]["norm"] for x in v}), "example": v[0][1]["s"], "observed": v[0][1]["out"], "expected": v[0][3]} for k, v in sorted(failing.items())], f, indent=1)
-    return core.finish(ctx, LEVEL, cov, findings_desc={f["id"]: "" for f in findings}, assumptions=[
+    return core.finish(ctx, LEVEL, cov, findings_desc={f["id"]: "%s name %r of %s (listed under %r)%s is not read as that month / weekday" % (
+        "month / weekday", f["signature"]["word"], f["signature"]["locale"], f["signature"].get("listed_under", "?"),
+        " with NORMALIZE=%s" % f["signature"]["normalize"] if "normalize" in f["signature"] else "") for f in findings}, assumptions=[
         "domain: the word's (lower-cased, NORMALIZE-dependent) form is listed under exactly one key across skip, pertain, the known words, parser tokens and relative-type words",
         "weekday-only probes use reference days 8..24 (month boundaries are C09's subject)",
         "quick: locales that add no names of their own are covered by a sample of the language's names"])
